@@ -323,7 +323,35 @@ def _vmt(repo):
         raise ExtractError('_quote_if_required: leading-character test not recognised')
     ex = _func(tree, 'export', 'Material')
     uses = len(_calls(ex, '_quote_if_required'))
-    return f"""/-- characters `_quote_if_required` refuses at the start of a bare string. -/
+    def writes(fn):
+        out = []
+        for n in ast.walk(fn):
+            if isinstance(n, ast.Call) and isinstance(n.func, ast.Attribute) and n.func.attr == 'write' and n.args:
+                a = n.args[0]
+                if isinstance(a, ast.JoinedStr):
+                    txt = ''.join(v.value if isinstance(v, ast.Constant) else '$' for v in a.values)
+                elif isinstance(a, ast.Constant) and isinstance(a.value, str):
+                    txt = a.value
+                else:
+                    txt = '@' + ast.unparse(a).replace(' ', '')
+                out.append((n.lineno, n.col_offset, txt))
+        return [t for _, _, t in sorted(out)]
+    try:
+        eb = writes(_func(tree, '_export_block'))
+    except ExtractError:
+        eb = []
+    pieces = writes(ex)
+    ps = _func(tree, 'parse', 'Material')
+    tok_kw = sorted({k.arg + '=' + ast.unparse(k.value) for n in ast.walk(ps) if isinstance(n, ast.Call)
+                     and ast.unparse(n.func) == 'Tokenizer' for k in n.keywords})
+    lits = sorted({n.value for n in ast.walk(ps) if isinstance(n, ast.Constant) and isinstance(n.value, str) and n.value.isalpha()})
+    return f"""/-- Material.export / _export_block: the literal text of every write ('$' = interpolation, '@' = expression). -/
+def vmtPieces : List String := {_strs(pieces)}
+def vmtBlockPieces : List String := {_strs(eb)}
+/-- Material.parse: tokenizer options and alphabetic string literals (`proxies`, `Proxy`). -/
+def vmtTokOpts : List String := {_strs(tok_kw)}
+def vmtParseWords : List String := {_strs(lits)}
+/-- characters `_quote_if_required` refuses at the start of a bare string. -/
 def vmtLead : List Char := {lean_str_chars(lead[0])}
 def vmtQuoteRule : String := {lean_string(rule)}
 /-- number of strings Material.export passes through `_quote_if_required` (shader, name, value). -/
